@@ -11,7 +11,9 @@ pub mod c08;
 pub mod c09;
 pub mod c10;
 pub mod c11;
+pub mod c12;
 pub mod c13;
+pub mod c14;
 pub mod c15;
 pub mod c16;
 pub mod c17;
@@ -43,7 +45,9 @@ pub fn all() -> Vec<Prop> {
         Prop { id: "C09", run: c09::run, replay: c09::replay, self_test: common::self_test_codec },
         Prop { id: "C10", run: c10::run, replay: c10::replay, self_test: common::self_test_codec },
         Prop { id: "C11", run: c11::run, replay: c11::replay, self_test: common::self_test_codec },
+        Prop { id: "C12", run: c12::run, replay: c12::replay, self_test: common::self_test_codec },
         Prop { id: "C13", run: c13::run, replay: c13::replay, self_test: common::self_test_codec },
+        Prop { id: "C14", run: c14::run, replay: c14::replay, self_test: common::self_test_codec },
         Prop { id: "C15", run: c15::run, replay: c15::replay, self_test: common::self_test_schema },
         Prop { id: "C16", run: c16::run, replay: c16::replay, self_test: common::self_test_schema },
         Prop { id: "C17", run: c17::run, replay: c17::replay, self_test: common::self_test_schema },
